@@ -92,6 +92,34 @@ def ret_exprs(an):
     return out
 
 
+def raw_id_string(ctx, o):
+    """o is the byte-string payload of the stored `id` entry, read in place:
+    `self.get_raw_rlp(b"id").and_then(|mut rlp| Header::decode_bytes(&mut rlp, false).ok())`
+    (an Option<&[u8]>), or `self.get(b"id")`"""
+    from kernel import E
+    from rules.tables import const_key
+    o = strip(o)
+    if o.k != "call":
+        return False
+    if o.a[0].target() == "Enr::<K>::get" and len(o.a[1]) == 2 and strip(o.a[1][0]).k == "param" and const_key(o.a[1][1]) == b"id":
+        return True
+    if o.a[0].name == "and_then" and len(o.a[1]) == 2:
+        src = strip(o.a[1][0])
+        if not (src.k == "call" and src.a[0].target() == "Enr::<K>::get_raw_rlp" and len(src.a[1]) == 2 and strip(src.a[1][0]).k == "param" and const_key(src.a[1][1]) == b"id"):
+            return False
+        cl = closure_of(o.a[1][1])
+        body = closures.closure_return(ctx, cl[0], cl[1], [E("closure-arg")]) if cl else None
+        if not body or len(body) != 1:
+            return False
+        b = strip(body[0])
+        if b.k == "call" and b.a[0].name == "ok" and b.a[1]:
+            d = strip(b.a[1][0])
+            if d.k == "call" and d.a[0].name == "decode_bytes" and "alloy_rlp::Header" in d.a[0].fn and len(d.a[1]) == 2:
+                flag = strip(d.a[1][1])
+                return flag.k == "const" and flag.a[0] == 0 and any(x.k == "closure-arg" for x in d.a[1][0].walk())
+    return False
+
+
 def id_is_v4_at(ctx, an, bb):
     """(some, v4): do the path constraints at block bb imply that self.id() is
     Some(..) and that its payload equals "v4"?  Forms: `match id() { Some(x) if
@@ -134,7 +162,7 @@ def id_is_v4_at(ctx, an, bb):
                 some = True
         if c0.k == "call" and c0.a[0].name in ("eq", "ne") and len(c0.a[1]) == 2:
             sides = [strip(x) for x in c0.a[1]]
-            idv = [x for x in sides if any(P.match(y, IDCALL) is not None for y in x.walk())]
+            idv = [x for x in sides if any(P.match(y, IDCALL) is not None for y in x.walk()) or raw_id_string(ctx, x)]
             equal = (c0.a[0].name == "eq" and holds) or (c0.a[0].name == "ne" and fails)
             lit = [x for x in sides if x.k == "const" and x.a[0] == b"v4"]
             if lit and idv and equal:
@@ -147,7 +175,7 @@ def id_is_v4_at(ctx, an, bb):
                 o = other[0] if other else None
                 while o is not None and o.k == "call" and o.a[0].name in ("as_deref", "as_ref", "as_str") and o.a[1]:
                     o = strip(o.a[1][0])
-                if o is not None and P.match(o, IDCALL) is not None:
+                if o is not None and (P.match(o, IDCALL) is not None or raw_id_string(ctx, o)):
                     some = v4 = True
     return some, v4
 
